@@ -27,7 +27,7 @@ RULE = (
     "its labels, 'blockwise' only if every label lives in one block. (2) closure as history: for a random strategy the "
     "graph is executed on the simulated cluster once per (sampled) output chunk with only that chunk requested; the "
     "recorded history of value blocks loaded must contain every block holding one of the chunk's labels and no block of "
-    "another batch slice. (3) exactly-once as conservation: element i of row r carries (r+1)*3**i in int64 (<=32 elements, so every sum is < 2**53); group sums and "
+    "another batch slice; a second closure layer does the same for labels with TWO axes (every group inside one block) under a value array whose batch dimension is chunked (blockwise / auto / cohorts / map-reduce). (3) exactly-once as conservation: element i of row r carries (r+1)*3**i in int64 (<=32 elements, so every sum is < 2**53); group sums and "
     "counts under every strategy with duplicate-execution, crash/recompute and cull faults must equal the membership "
     "sums exactly (a digit other than the expected one names a dropped or double-counted element). Non-trivial iff >=2 "
     "blocks and >=2 groups. distinct_nontrivial = distinct (layer, pattern, label ndim, #blocks, merge / resolved "
@@ -37,13 +37,15 @@ ASSUMPTIONS = [
     "sampled, not enumerated (the exhaustive-up-to-a-bound part of the quantifier would be model checking)",
     "line-level interleaving of planner jobs switches threads only at Python line boundaries inside flox frames (not inside a NumPy call)",
 ]
-PROBES = ["planner_more_jobs_than_pool_workers", "planner_jobs_preempted_linewise", "planner_threadpool_branch", "planner_serial_branch", "planner_jobs_reordered", "planner_prefers_cohorts",
+PROBES = ["closure2d_blockwise", "closure2d_batch_chunked", "planner_more_jobs_than_pool_workers", "planner_jobs_preempted_linewise", "planner_threadpool_branch", "planner_serial_branch", "planner_jobs_reordered", "planner_prefers_cohorts",
           "planner_prefers_blockwise", "planner_prefers_mapreduce", "planner_merged_by_containment", "labels_2d",
           "closure_cohorts", "closure_blockwise", "conservation_crash", "conservation_dup", "cohorts_multi"]
 
 
 def gen(tape: Tape, tier: str) -> dict:
-    layer = tape.choice("gen.layer", ["planner", "planner", "closure", "conserve", "conserve"])
+    layer = tape.choice("gen.layer", ["planner", "planner", "closure", "conserve", "conserve", "closure2d"])
+    if layer == "closure2d":
+        return gen_closure2d(tape, tier)
     ndim = 2 if (layer == "planner" and tape.chance("gen.2d", 0.3)) else 1
     many = layer == "planner" and ndim == 1 and tape.chance("gen.manychunks", 0.3)
     if many:
@@ -115,6 +117,41 @@ def gen(tape: Tape, tier: str) -> dict:
             case["knobs"]["backend"] = "A"
             case["knobs"]["optimize"] = False
     return case
+
+
+def gen_closure2d(tape: Tape, tier: str) -> dict:
+    """Labels with two axes (every group inside one block: blockwise-eligible), value array with a chunked
+    batch dimension in front: closure and conservation of every output chunk, batch isolation."""
+    a = tape.randint("gen.a", 1, 4)
+    b = tape.randint("gen.b", 2, 6)
+    while a * b > 30:
+        b -= 1
+    ca = gen_chunks(tape, a, "gen.ca", max_blocks=3)
+    cb = gen_chunks(tape, b, "gen.cb", max_blocks=4)
+    ea, eb = np.cumsum([0] + ca), np.cumsum([0] + cb)
+    codes = np.zeros((a, b), dtype=np.int64)
+    g = 0
+    for i in range(len(ca)):
+        for j in range(len(cb)):
+            blk = codes[ea[i]:ea[i + 1], eb[j]:eb[j + 1]]
+            k = 1 if blk.size == 1 or tape.chance("gen.one", 0.4) else 2
+            blk[...] = g
+            if k == 2:
+                blk.reshape(-1)[blk.size // 2:] = g + 1
+            codes[ea[i]:ea[i + 1], eb[j]:eb[j + 1]] = blk
+            g += k
+    rows = tape.randint("gen.rows", 2, 3)
+    return {
+        "kind": "closure2d",
+        "codes": enc_array(codes),
+        "chunks": [ca, cb],
+        "rows": rows,
+        "row_chunks": tape.choice("gen.rowchunks", [[1] * rows, [1] * rows, [rows], [rows - 1, 1]]),
+        "func": tape.choice("gen.func", ["sum", "sum", "count", "nansum"]),
+        "method": tape.choice("gen.method", ["blockwise", "blockwise", None, "cohorts", "map-reduce"]),
+        "knobs": {**swarm_knobs(tape, len(cb)), "backend": "A", "optimize": False},
+        "meta": {"pattern": "per-block-2d"},
+    }
 
 
 # ---------------------------------------------------------------------------
@@ -378,7 +415,95 @@ def run_closure(case, tape, ctx):
         ctx.count("closures_checked")
 
 
+def run_closure2d(case, tape, ctx):
+    import dask
+    import dask.array as da
+    import flox
+
+    from ..oracle import spy_plan
+
+    codes = dec_array(case["codes"])
+    a, b = codes.shape
+    rows = case["rows"]
+    n = a * b
+    vals = np.array([[(r + 1) * 3**i for i in range(n)] for r in range(rows)], dtype=np.int64).reshape(rows, a, b)
+    labels = codes.astype(np.float64)
+    chunks = (tuple(case["row_chunks"]), tuple(case["chunks"][0]), tuple(case["chunks"][1]))
+    darr = da.from_array(vals, chunks=chunks, name="simvals-x")
+    kwargs = {"func": case["func"]}
+    if case["method"] is not None:
+        kwargs["method"] = case["method"]
+    try:
+        with dask.config.set(split_every=case["knobs"].get("split_every")), spy_plan() as plan:
+            res, groups = flox.groupby_reduce(darr, labels, **kwargs)
+    except REFUSALS as e:
+        raise Skip(f"refused:{type(e).__name__}")
+    except Exception as e:  # noqa: BLE001
+        cls, msg, det = classify_exception(e)
+        raise Violation(cls, msg, **det)
+    groups = np.asarray(groups)
+    nblocks = len(chunks[1]) * len(chunks[2])
+    ctx.nontrivial = nblocks >= 2 and len(chunks[0]) >= 2
+    ctx.cell("closure2d", plan.get("method"), len(chunks[0]), len(chunks[1]), len(chunks[2]), case["func"])
+    ctx.probe("closure2d_" + str(plan.get("method")).replace("map-reduce", "mapreduce"))
+    ctx.probe("closure2d_batch_chunked", len(chunks[0]) >= 2)
+    if any(isinstance(c, float) and math.isnan(c) for ax in res.chunks for c in ax):
+        raise Skip("unknown-chunk-sizes")
+    ea, eb = np.cumsum([0] + list(chunks[1])), np.cumsum([0] + list(chunks[2]))
+    er = np.cumsum([0] + list(chunks[0]))
+
+    def blocks_of(lab):
+        out = set()
+        for i in range(len(chunks[1])):
+            for j in range(len(chunks[2])):
+                if (labels[ea[i]:ea[i + 1], eb[j]:eb[j + 1]] == lab).any():
+                    out.add((i, j))
+        return out
+
+    out_idx = list(itertools.product(*[range(len(c)) for c in res.chunks]))
+    pick = tape.shuffle("gen.outchunks", out_idx)[: (4 if ctx.tier == "quick" else 12)]
+    goff = np.cumsum([0] + list(res.chunks[-1]))
+    flatvals = vals.reshape(rows, n)
+    flatlab = labels.reshape(-1)
+    for oi in pick:
+        info = RunInfo()
+        try:
+            (val,) = exec_sim([res.blocks[oi]], tape, dict(case["knobs"]), ctx, info=info)
+        except TaskError as te:
+            cls, msg, det = classify_exception(te)
+            raise Violation(cls, msg, **det)
+        loaded = set()
+        for k in info.loaded:
+            if k.startswith("simvals-x/"):
+                loaded.add(tuple(int(x) for x in k.split("/")[1:]))
+        labs = groups[goff[oi[-1]]: goff[oi[-1] + 1]]
+        need = set()
+        for lab in labs.tolist():
+            need |= {(oi[0], i, j) for (i, j) in blocks_of(lab)}
+        ctx.log.add(f"CLOSURE2D out={oi} loaded={sorted(loaded)} need={sorted(need)}")
+        if not need <= loaded:
+            raise Violation("cover", f"output chunk {oi} (labels {labs.tolist()}, plan {plan.get('method')}) was computed without "
+                            f"loading value blocks {sorted(need - loaded)} that hold its labels; labels={labels.tolist()} chunks={chunks}",
+                            resolved_method=plan.get("method"))
+        foreign = {blk for blk in loaded if blk[0] != oi[0]}
+        if foreign:
+            raise Violation("exclusive", f"output chunk {oi} pulled value blocks {sorted(foreign)} of a different batch slice "
+                            f"(plan {plan.get('method')}); labels={labels.tolist()} chunks={chunks}", resolved_method=plan.get("method"))
+        val = np.asarray(val).reshape(-1, len(labs))
+        rws = list(range(er[oi[0]], er[oi[0] + 1]))
+        for jx, lab in enumerate(labs.tolist()):
+            for ri, r in enumerate(rws):
+                want = _expected_sum(flatvals[r], flatlab, lab, case["func"])
+                if int(val[ri, jx]) != want:
+                    raise Violation("multiplicity", f"output chunk {oi}: group {lab} batch row {r} = {int(val[ri, jx])} != {want} "
+                                    f"(plan {plan.get('method')}): a member was dropped, double-counted or taken from another "
+                                    f"batch slice; labels={labels.tolist()} chunks={chunks}", resolved_method=plan.get("method"))
+        ctx.count("closures2d_checked")
+
+
 def run(case, tape: Tape, ctx):
+    if case["kind"] == "closure2d":
+        return run_closure2d(case, tape, ctx)
     if case["kind"] == "planner":
         return run_planner(case, tape, ctx)
     if case["kind"] == "conserve":
@@ -387,6 +512,13 @@ def run(case, tape: Tape, ctx):
 
 
 def shrink(case):
+    if case["kind"] == "closure2d":
+        if case.get("rows", 2) > 2:
+            c = copy.deepcopy(case)
+            c["rows"] = 2
+            c["row_chunks"] = [1, 1]
+            yield c
+        return
     codes = dec_array(case["codes"])
     if codes.ndim == 1:
         ch = case["chunks"][-1]
